@@ -29,7 +29,7 @@ func init() {
 		},
 		Batch: func(t string) int { return 32 },
 		Floors: []string{"roundtrips", "mode_encrypted_footer", "mode_plaintext_footer", "keys_footer_only", "keys_per_column", "missing_column_key_checks", "leak_scans", "markers_searched", "tamper_byte_flips", "tamper_truncations", "tamper_module_swaps", "tamper_swaps_256_apart", "wide_ordinal_files", "encrypted_seeks",
-			"tamper_cross_file_transplants", "tamper_wrong_key", "writer_reuse_after_reset", "write_rowgroup_from_encrypted_source", "envelope_walks"},
+			"tamper_cross_file_transplants", "tamper_wrong_key", "writer_reuse_after_reset", "write_rowgroup_from_encrypted_source", "envelope_walks", "entry_write_rows", "entry_write_rowgroup_buffer", "entry_write_rowgroup_plain_file", "entry_begin_rowgroup"},
 		Rule: "case = ({encrypted footer, signed plaintext footer} x {footer key only, per-column keys} x v1/v2 x codecs x page index / bloom filters x 1..n row groups x {fresh writer, writer reused through Reset after a file with another number of row groups}; " +
 			"string values are unique 16-byte high-entropy markers). (a) round trip with the right keys equals the rows written; a reader lacking a column key gets an error for that column, never zeros; (b) no marker of an encrypted column (values or statistics) occurs in the raw bytes; " +
 			"(c) fault enumeration over the module envelopes found by an independent length-prefix walk: byte flips in nonce/ciphertext/tag/length of PRNG modules, truncation, swaps of equal-length modules, transplant of the same module position from another file written with an independent file identifier " +
@@ -154,8 +154,19 @@ func runC18(c *Ctx) {
 	kd := map[string]any{"mode": mode, "per_column": perColumn, "reuse": reuse}
 	c.Obs("mode_"+mode, 1)
 
+	// how the rows get into the encrypted writer
+	entry := "typed_write"
+	if c.Case%5 == 3 {
+		entry = []string{"write_rows", "write_rowgroup_buffer", "write_rowgroup_plain_file", "begin_rowgroup"}[(c.Case/5)%4]
+	}
+	c.D("entry", entry)
+	kd["entry"] = entry
+	c.Obs("entry_"+entry, 1)
+	errConcurrentRejected := errors.New("concurrent row group rejected")
+	var sink *bytes.Buffer
 	write := func(rows []c18Row, opts []parquet.WriterOption) ([]byte, error) {
 		var buf bytes.Buffer
+		sink = &buf
 		w := parquet.NewGenericWriter[c18Row](&buf, opts...)
 		if reuse {
 			// a previous file with another number of row groups, then Reset
@@ -176,9 +187,67 @@ func runC18(c *Ctx) {
 			w.Reset(&buf)
 			c.Obs("writer_reuse_after_reset", 1)
 		}
-		for lo := 0; lo < len(rows); lo += 25 {
-			if _, err := w.Write(rows[lo:min(len(rows), lo+25)]); err != nil {
+		switch entry {
+		case "typed_write":
+			for lo := 0; lo < len(rows); lo += 25 {
+				if _, err := w.Write(rows[lo:min(len(rows), lo+25)]); err != nil {
+					return nil, err
+				}
+			}
+		case "write_rows", "begin_rowgroup":
+			prows := make([]parquet.Row, len(rows))
+			for i := range rows {
+				prows[i] = w.Schema().Deconstruct(nil, &rows[i])
+			}
+			if entry == "write_rows" {
+				if _, err := w.WriteRows(prows); err != nil {
+					return nil, err
+				}
+				break
+			}
+			// row groups prepared with BeginRowGroup and committed in order: the pages must be encrypted
+			// like any other, or the writer has to refuse
+			for lo := 0; lo < len(prows); lo += 70 {
+				rg := w.BeginRowGroup()
+				if _, err := rg.WriteRows(prows[lo:min(len(prows), lo+70)]); err != nil {
+					return nil, fmt.Errorf("%w: WriteRows: %v", errConcurrentRejected, err)
+				}
+				if _, err := rg.Commit(); err != nil {
+					return nil, fmt.Errorf("%w: Commit: %v", errConcurrentRejected, err)
+				}
+			}
+		case "write_rowgroup_buffer":
+			b := parquet.NewGenericBuffer[c18Row]()
+			if _, err := b.Write(rows); err != nil {
 				return nil, err
+			}
+			if _, err := w.WriteRowGroup(b); err != nil {
+				return nil, err
+			}
+		case "write_rowgroup_plain_file":
+			// a plaintext file with otherwise the same options: the verbatim copy must not be taken
+			var popts []parquet.WriterOption
+			for _, o := range opts {
+				if fmt.Sprintf("%T", o) != "*parquet.writerEncryptionOption" {
+					popts = append(popts, o)
+				}
+			}
+			var plain bytes.Buffer
+			pw := parquet.NewGenericWriter[c18Row](&plain, popts...)
+			if _, err := pw.Write(rows); err != nil {
+				return nil, err
+			}
+			if err := pw.Close(); err != nil {
+				return nil, err
+			}
+			pf, err := parquet.OpenFile(bytes.NewReader(plain.Bytes()), int64(plain.Len()))
+			if err != nil {
+				return nil, err
+			}
+			for _, rg := range pf.RowGroups() {
+				if _, err := w.WriteRowGroup(rg); err != nil {
+					return nil, err
+				}
 			}
 		}
 		if err := w.Close(); err != nil {
@@ -218,6 +287,17 @@ func runC18(c *Ctx) {
 	var data []byte
 	var err error
 	if c.guard("c18.panic", kd, func() { data, err = write(rows, wopts) }) {
+		return
+	}
+	if errors.Is(err, errConcurrentRejected) {
+		// refusing is allowed; what reached the sink must still hold none of the values
+		for i := range rows {
+			if bytes.Contains(sink.Bytes(), []byte(rows[i].Secret[2:])) {
+				c.Fail("c18.plaintext_leak", kd, "an encrypted writer refused a concurrent row group (%v) but the value of column \"secret\" of row %d is in the bytes written", err, i)
+				return
+			}
+		}
+		c.Obs("concurrent_rowgroup_refused", 1)
 		return
 	}
 	if err != nil {
